@@ -889,6 +889,24 @@ pub fn plans_for(prop: &str, thorough: bool) -> Vec<Plan> {
                     oracles: O_TOTAL,
                     u_cap: 400,
                 });
+                // ranges are byte offsets: every pair of BYTES of programs that contain multi-byte characters
+                plans.push(Plan {
+                    name: "programs with multi-byte characters x every pair of byte offsets as range",
+                    cases: [
+                        "local s = \"\u{e9}t\u{e9}\"\nlocal   t  =  1\n",
+                        "-- \u{fc}n\u{ef}\nlocal  a = '\u{df}'\n",
+                        "local t = { [\"\u{e9}\"] = 1 } -- \u{2713}\n",
+                        "f(  '\u{1f600}'  )\n--[[ \u{4e2d} ]]\n",
+                    ]
+                    .iter()
+                    .map(|t| Case { text: t.to_string(), fam: "F-STMT", dial: Dial::Core, meta: Default::default() })
+                    .collect(),
+                    cfgs: cross(false, |b| vec![b]),
+                    widths: Widths::Classes,
+                    ranges: Ranges::AllBytes,
+                    oracles: O_TOTAL,
+                    u_cap: 400,
+                });
                 // every range, including inverted / empty / out-of-bounds ones, with collapse
                 plans.push(Plan {
                     name: "block statements (alone and behind another statement) x every pair of range points x collapse",
